@@ -112,6 +112,14 @@ def fl(s: Any) -> float:
     return float(s)
 
 
+def renamed(record: Any, saved_id: str) -> Any:
+    """a record whose id differs from the saved one is the renamed duplicate: pre-processing gave it a new id
+       and kept the shared identifier as its original id"""
+    if record.id != saved_id:
+        record.original_id = saved_id
+    return record
+
+
 # ----------------------------------------------------------------------------- generators
 
 NRPS_NAMES = ["Condensation_LCL", "Condensation_DCL", "Condensation_Starter", "AMP-binding", "A-OX", "PCP", "PP-binding",
@@ -242,6 +250,11 @@ class C11(Property):
         ("antismash/detection/sideloader/__init__.py", "run_on_record"),
         ("antismash/detection/sideloader/general.py", "load_single_record_annotations"),
         ("antismash/common/secmet/record.py", "Record.has_name"),
+        ("antismash/common/secmet/qualifiers/gene_functions.py", "GeneFunctionAnnotations.clear"),
+        ("antismash/common/secmet/features/cds_feature.py", "CDSFeature.strip_antismash_annotations"),
+        ("antismash/common/secmet/record.py", "Record.strip_antismash_annotations"),
+        ("antismash/common/serialiser.py", "record_to_json"),
+        ("antismash/common/serialiser.py", "record_from_json"),
         ("antismash/detection/full_hmmer/__init__.py", "run_on_record"),
         ("antismash/detection/cluster_hmmer/__init__.py", "run_on_record"),
         ("antismash/common/pfamdb.py", "get_db_version_from_path"),
@@ -305,8 +318,8 @@ class C11(Property):
     # ------------------------------------------------------------------ case generation
     def cases(self, rng: random.Random, tier: str, deep: bool) -> Iterator[Dict[str, Any]]:
         scale = 6 if deep else 1
-        plan = [("hmmresult", 1000), ("nrpspks", 500), ("hmmdet", 350), ("sideload", 1000), ("hmmer", 1200),
-                ("tta", 600), ("resfile", 500), ("sideopt", 700), ("runmod", 24)]
+        plan = [("hmmresult", 800), ("nrpspks", 450), ("hmmdet", 320), ("sideload", 800), ("hmmer", 1000),
+                ("tta", 500), ("resfile", 400), ("sideopt", 600), ("runmod", 24)]
         for kind, n in plan:
             if kind == "runmod":
                 yield from self.all_runmod()
@@ -435,7 +448,7 @@ class C11(Property):
         case = {"kind": "hmmdet", "record": {"id": rng.choice(["rec1", "NZ_X.1"]), "length": length, "circular": circular,
                                               "genes": genes},
                 "clusters": clusters, "cdsres": cdsres, "outside": outside, "saved": saved, "cur": cur, "mut": mut,
-                "tool": "rule-based-clusters", "via": "direct"}
+                "tool": "rule-based-clusters", "via": "direct", "reload": rng.random() < 0.45}
         r = rng.random()
         if r < 0.45:
             # results written by the real run_on_record (hmmsearch stubbed with the hits below)
@@ -868,7 +881,8 @@ class C11(Property):
         for g in order:
             feats.append(DummyCDS(pos, pos + 3000, g["strand"], locus_tag=g["name"], translation="M" * 1000))
             pos += 3100
-        rec = DummyRecord(features=feats, seq="A" * (pos + 200), record_id=record_id or case["record_id"])
+        rec = renamed(DummyRecord(features=feats, seq="A" * (pos + 200), record_id=record_id or case["record_id"]),
+                      case["record_id"])
         rec.add_subregion(DummySubRegion(50, pos + 100))
         rec.create_regions()
         return rec
@@ -904,9 +918,9 @@ class C11(Property):
         if mut:
             applied = self.mutate_nrps(j_in, mut)
             if mut == "record_id":
-                cur_record_id = case["record_id"] + "_other"
+                cur_record_id = case["record_id"] + "_0"
         obs: Dict[str, Any] = {"json_in": to_wire(j_in), "mutated": bool(mut) and applied,
-                               "ctx": {"record_id": cur_record_id, "cds_names": [g["name"] for g in case["genes"]]},
+                               "ctx": {"record_id": cur_record_id, "cds_names": [g["name"] for g in case["genes"]], "original_id": case["record_id"]},
                                "n_modules": sum(len(r.modules) for r in x.cds_results.values()),
                                "n_cds": len(x.cds_results)}
         records: List[Any] = []
@@ -986,8 +1000,30 @@ class C11(Property):
     def det_record(self, case: Dict[str, Any], record_id: Optional[str] = None) -> Any:
         from antismash.common.secmet.test.helpers import DummyCDS, DummyRecord
         r = case["record"]
-        feats = [DummyCDS(g["lo"], g["hi"], g["strand"], locus_tag=g["name"]) for g in r["genes"]]
-        return DummyRecord(features=feats, seq="A" * r["length"], record_id=record_id or r["id"], circular=r["circular"])
+        feats = [DummyCDS(g["lo"], g["hi"], g["strand"], locus_tag=g["name"],
+                          translation="M" * max(1, (g["hi"] - g["lo"]) // 3 - 1)) for g in r["genes"]]
+        rec = DummyRecord(features=feats, seq="A" * r["length"], record_id=record_id or r["id"], circular=r["circular"])
+        rec._record.annotations["molecule_type"] = "DNA"   # pylint: disable=protected-access
+        return renamed(rec, r["id"])
+
+    @staticmethod
+    def det_annotations(record: Any) -> List[Any]:
+        return sorted(
+            [cds.get_name(),
+             [[d.name, dec_of(d.evalue), dec_of(d.bitscore), d.nseeds, d.tool] for d in cds.sec_met.domains],
+             [[str(f.function), f.tool, f.description, f.product] for f in cds.gene_functions]]
+            for cds in record.get_cds_features() if cds.sec_met)
+
+    @staticmethod
+    def det_reloaded(record: Any, taxon: str) -> Any:
+        """what main.read_data hands to the modules: the record read back from its JSON (with the annotations
+           the first run put on it) and then stripped of them"""
+        import orjson
+        from antismash.common import serialiser
+        data = orjson.loads(orjson.dumps(serialiser.record_to_json(record.to_biopython())))
+        rec = serialiser.record_from_json(data, taxon)
+        rec.strip_antismash_annotations()
+        return rec
 
     @staticmethod
     def mk_loc(parts: List[List[int]]) -> Any:
@@ -1087,12 +1123,12 @@ class C11(Property):
         if mut:
             applied = self.mutate_det(j_in, mut)
             if mut == "record_id":
-                cur_record_id += "_other"
+                cur_record_id += "_0"
         cur_opts = self.det_config(case["cur"])
         rule_names = sorted(hmm_detection.get_ruleset(cur_opts).get_rule_names())
         obs: Dict[str, Any] = {
             "json_in": to_wire(j_in), "mutated": bool(mut) and applied,
-            "ctx": {"record_id": cur_record_id, "cds_names": [g["name"] for g in case["record"]["genes"]]},
+            "ctx": {"record_id": cur_record_id, "cds_names": [g["name"] for g in case["record"]["genes"]], "original_id": case["record"]["id"]},
             "opts": {"strictness": case["cur"]["strictness"], "rule_names": rule_names,
                      "fungi": case["cur"]["taxon"] == "fungi", "cutoff": dec_of(fl(case["cur"]["cutoff"])),
                      "neighbourhood": dec_of(fl(case["cur"]["nbh"]))},
@@ -1106,8 +1142,12 @@ class C11(Property):
                 "saved_record_id": case["record"]["id"]}
         records: List[Any] = []
 
+        reload = bool(case.get("reload")) and mut != "record_id"
+        orig_annotations = self.det_annotations(rec_a)
+        reloaded = self.det_reloaded(rec_a, case["saved"]["taxon"]) if reload else None
+
         def regen(j: Any) -> Any:
-            rec = self.det_record(case, cur_record_id)
+            rec = reloaded if reload and not records else self.det_record(case, cur_record_id)
             records.append(rec)
             return hmm_detection.regenerate_previous_results(j, rec, cur_opts)
         self.cycle(obs, j_in, regen, lambda y: y.to_json())
@@ -1116,12 +1156,11 @@ class C11(Property):
             obs["protos"] = [{"loc": loc_obs(p.location), "core": loc_obs(p.core_location), "product": p.product}
                              for p in y.get_predicted_protoclusters()]
             # what regeneration annotated on the fresh record copy
-            obs["annotations"] = sorted(
-                [cds.get_name(),
-                 [[d.name, dec_of(d.evalue), dec_of(d.bitscore), d.nseeds, d.tool] for d in cds.sec_met.domains],
-                 [[str(f.function), f.tool, f.description, f.product] for f in cds.gene_functions]]
-                for cds in records[0].get_cds_features() if cds.sec_met)
+            obs["annotations"] = self.det_annotations(records[0])
+            obs["annotations_as_original"] = obs["annotations"] == orig_annotations
             try:
+                if reload:
+                    raise StopIteration
                 feats_a, bytes_a = self.det_observe(x, rec_a)
                 feats_b, bytes_b = self.det_observe(y, records[0])
                 obs["features_equal"] = feats_a == feats_b
@@ -1129,6 +1168,8 @@ class C11(Property):
                 if not obs["features_equal"]:
                     diff = [(a, b) for a, b in zip(feats_a, feats_b) if a != b][:1]
                     obs["feature_diff"] = repr(diff)[:400]
+            except StopIteration:
+                pass
             except Exception as exc:  # pylint: disable=broad-except
                 obs["features_equal"] = False
                 obs["feature_error"] = f"{type(exc).__name__}: {exc}"[:200]
@@ -1176,8 +1217,8 @@ class C11(Property):
     def side_record(self, case: Dict[str, Any], record_id: Optional[str] = None, circular: Optional[bool] = None) -> Any:
         from antismash.common.secmet.test.helpers import DummyRecord
         r = case["record"]
-        return DummyRecord(seq="A" * r["length"], record_id=record_id or r["id"],
-                           circular=r["circular"] if circular is None else circular)
+        return renamed(DummyRecord(seq="A" * r["length"], record_id=record_id or r["id"],
+                                   circular=r["circular"] if circular is None else circular), r["id"])
 
     @staticmethod
     def side_predicted(results: Any) -> Dict[str, Any]:
@@ -1214,12 +1255,12 @@ class C11(Property):
         if mut:
             applied = self.mutate_side(j_in, mut)
             if mut == "record_id":
-                cur_record_id += "_other"
+                cur_record_id += "_0"
             if mut == "topology":
                 cur_circular = not cur_circular
         cur_origin = case["record"]["length"] if cur_circular else None
         obs: Dict[str, Any] = {"json_in": to_wire(j_in), "mutated": bool(mut) and applied,
-                               "ctx": {"record_id": cur_record_id, "cds_names": [], "origin": cur_origin},
+                               "ctx": {"record_id": cur_record_id, "cds_names": [], "origin": cur_origin, "original_id": case["record"]["id"]},
                                "n_areas": len(subs) + len(protos)}
         try:
             original = self.side_predicted(x)
@@ -1334,7 +1375,7 @@ class C11(Property):
         rec = DummyRecord(features=feats, seq="A" * r["length"], record_id=record_id or r["id"], circular=r["circular"])
         if r["original_id"]:
             rec.original_id = r["original_id"]
-        return rec
+        return renamed(rec, r["id"])
 
     def sideopt_options(self, case: Dict[str, Any], o: Dict[str, Any], tmp: str, tag: str, record: Any) -> Tuple[Any, Dict[str, Any]]:
         """the options object of one run + the model's view of it (files as what they parse to for this record)"""
@@ -1376,7 +1417,7 @@ class C11(Property):
             rec_a = self.sideopt_record(case)
             try:
                 saved_opts, saved_view = self.sideopt_options(case, case["saved"], tmp, "saved", rec_a)
-                cur_id = case["record"]["id"] + ("_other" if case.get("mut") == "record_id" else "")
+                cur_id = case["record"]["id"] + ("_0" if case.get("mut") == "record_id" else "")
                 cur_opts, cur_view = self.sideopt_options(case, case["cur"], tmp, "cur", self.sideopt_record(case, cur_id))
                 if not sideloader.is_enabled(saved_opts):
                     return {"skip": "the saving run requests no sideloading"}
@@ -1393,13 +1434,14 @@ class C11(Property):
             if mut == "schema:2":
                 j_in["schema_version"] = 2
             elif mut == "record_id":
-                cur_record_id += "_other"
+                cur_record_id += "_0"
             r = case["record"]
             same_options = case["saved"] == case["cur"] and mut not in ("schema:2", "record_id")
             obs: Dict[str, Any] = {
                 "json_in": to_wire(j_in), "stored": stored_wire, "mutated": not same_options,
                 "n_areas": len(stored.subregions) + len(stored.protoclusters),
-                "rec": {"id": cur_record_id, "original_id": r["original_id"], "length": r["length"], "circular": r["circular"],
+                "rec": {"id": cur_record_id, "original_id": r["id"] if cur_record_id != r["id"] else r["original_id"],
+                        "length": r["length"], "circular": r["circular"],
                         "cds": [[f"g{i}", i * 1000 + 100, i * 1000 + 400] for i in range(r["ngenes"])]},
                 "saved_rec_id": r["id"], "saved": saved_view, "cur": cur_view}
             finals: List[Any] = []
@@ -1428,7 +1470,7 @@ class C11(Property):
         from antismash.common.secmet.test.helpers import DummyCDS, DummyRecord
         feats = [DummyCDS(100 + 1000 * i, 100 + 1000 * i + 600, 1 if i != 1 else -1, locus_tag=f"gene{i}",
                           translation="MAGIC" * 40) for i in range(3)]
-        return DummyRecord(features=feats, seq="A" * 4000, record_id=record_id or case["record_id"])
+        return renamed(DummyRecord(features=feats, seq="A" * 4000, record_id=record_id or case["record_id"]), case["record_id"])
 
     def impl_hmmer(self, case: Dict[str, Any]) -> Dict[str, Any]:
         import importlib
@@ -1455,11 +1497,11 @@ class C11(Property):
         if mut:
             applied = self.mutate_hmmer(j_in, mut)
             if mut == "record_id":
-                cur_record_id += "_other"
+                cur_record_id += "_0"
         max_e, min_s = fl(case["cur"]["max_evalue"]), fl(case["cur"]["min_score"])
         changed = (max_e, min_s) != (fl(case["saved"]["max_evalue"]), fl(case["saved"]["min_score"]))
         obs: Dict[str, Any] = {"json_in": to_wire(j_in), "mutated": (bool(mut) and applied and mut != "grid") or changed,
-                               "ctx": {"record_id": cur_record_id, "cds_names": []},
+                               "ctx": {"record_id": cur_record_id, "cds_names": [], "original_id": case["record_id"]},
                                "max_evalue": dec_of(max_e), "min_score": dec_of(min_s), "n_hits": len(hits),
                                "pfam": {"module": case["module"], "full": pfam["full"], "cluster": pfam["cluster"],
                                         "latest": pfam["installed"][-1]}}
@@ -1578,7 +1620,7 @@ class C11(Property):
                 feats.append(DummyCDS(location=location, locus_tag=g["name"], translation="M" * 5))
             else:
                 feats.append(DummyCDS(g["lo"], g["hi"], g["strand"], locus_tag=g["name"]))
-        rec = DummyRecord(features=feats, seq=case["seq"], record_id=record_id or case["record_id"])
+        rec = renamed(DummyRecord(features=feats, seq=case["seq"], record_id=record_id or case["record_id"]), case["record_id"])
         rec.add_subregion(DummySubRegion(0, len(case["seq"])))
         rec.create_regions()
         return rec
@@ -1600,11 +1642,11 @@ class C11(Property):
             if mut.startswith("schema:"):
                 j_in["schema_version"] = int(mut.split(":")[1])
             elif mut == "record_id":
-                cur_record_id += "_other"
+                cur_record_id += "_0"
             elif mut == "empty_json":
                 j_in.clear()
         obs: Dict[str, Any] = {"json_in": to_wire(j_in), "mutated": bool(mut), "gc": dec_of(gc), "all_codons": all_codons,
-                               "ctx": {"record_id": cur_record_id, "cds_names": []}, "steps": [],
+                               "ctx": {"record_id": cur_record_id, "cds_names": [], "original_id": case["record_id"]}, "steps": [],
                                "n_codons": len(all_codons)}
         from antismash import main
         name = "antismash.modules.tta"
@@ -1964,7 +2006,7 @@ class C11(Property):
             pf = case.get("pfam") or {"stored": "35.0", "installed": ["35.0"], "full": "latest", "cluster": "latest"}
             wanted = pf["full" if case["module"] == "full_hmmer" else "cluster"]
             wanted = pf["installed"][-1] if wanted == "latest" else wanted
-            if obs["run"] == "keep" and not drv.get("keep_allowed", True):
+            if obs["run"] == "keep" and not drv.get("keep_allowed", True) and drv["outcome"] == "reuse":
                 spec_ok = False
                 detail = ("PFAM results of another database version were kept although this module's option asks for "
                           f"{wanted} (stored {pf['stored']})")
@@ -1988,6 +2030,10 @@ class C11(Property):
                 spec_ok = False
                 detail = detail or ("regenerated results add different features: "
                                     + obs.get("feature_diff", obs.get("feature_error", "")))
+            if obs.get("annotations_as_original") is False and not mutated:
+                spec_ok = False
+                detail = detail or ("the regenerated results put other gene annotations on the record than the original "
+                                    "run did" + (" (record reloaded from its JSON and stripped first)" if case.get("reload") else ""))
             if obs.get("attached_bytes_equal") is False and not mutated:
                 spec_ok = False
                 detail = detail or "JSON written after adding the protoclusters to the record differs"
@@ -2011,6 +2057,8 @@ class C11(Property):
             tags += (f"{kind}:request:{case['request']}",)
         if kind == "hmmdet":
             tags += (f"hmmdet:via:{case.get('via', 'direct')}" + (":no-genes" if not case["record"]["genes"] else ""),)
+            if case.get("reload"):
+                tags += ("hmmdet:reloaded-and-stripped",)
         if known and failed_before:
             known = None         # another violation besides the recorded one
         if known:
